@@ -473,3 +473,80 @@ Proof.
   destruct (Hfull [] rf_cfg sp_reqs sp_store sp_sched c' rs Hinv He Hfin) as [order [Hp [_ Hr]]].
   apply Hno. exists order. split; auto.
 Qed.
+
+(* ------------------------------------------------------------------ why the defect needs predefined collections *)
+(* With NO predefined collections the w section of the unchanged gate is create_collection(home) alone = makedirs,
+   which does nothing when the home exists: the missing re-check is harmless and the unchanged gate is
+   serialisable too (one user who may create the home, any number of requests, any initial store). *)
+Lemma create_plain_is_provision pol u s :
+  store_inv s -> may_create pol u = true -> provision_unchecked [] s u = prov_spec [] pol (Some u) s.
+Proof.
+  intros Hs Hm. unfold prov_spec, provision, provision_unchecked. rewrite Hm. cbn [create_predefined fold_left].
+  rewrite (home_absent_lookup _ _ Hs). unfold create_plain. destruct (lookup s [u]); reflexivity.
+Qed.
+
+Definition unfixed_greq (cfg : config) (u : name) (pol : policy) (r : request) : greq store response :=
+  mkG (gate_absent pol u) (fun s => provision_unchecked [] s u) (fun s => s) (hsec cfg pol r).
+
+Lemma unfixed_spec_serial cfg u pol rq : may_create pol u = true -> forall order acc,
+  store_inv (fst acc) ->
+  fold_left (spec_step (map (unfixed_greq cfg u pol) rq)) order acc =
+  fold_left (serial_handle_step [] cfg (map (fun r => (Some u, pol, r)) rq)) order acc /\
+  store_inv (fst (fold_left (spec_step (map (unfixed_greq cfg u pol) rq)) order acc)).
+Proof.
+  intros Hm. induction order as [|i order IH]; intros acc Hs; cbn [fold_left]; [split; auto|].
+  assert (E : spec_step (map (unfixed_greq cfg u pol) rq) acc i =
+              serial_handle_step [] cfg (map (fun r => (Some u, pol, r)) rq) acc i).
+  { unfold spec_step, serial_handle_step. rewrite !nth_error_map. destruct (nth_error rq i) as [r|]; [|reflexivity].
+    cbn [option_map unfixed_greq g_H g_P fst snd]. rewrite run_prog_hsec. unfold handle_pre.
+    rewrite (create_plain_is_provision pol u _ Hs Hm). reflexivity. }
+  rewrite E. apply IH. unfold serial_handle_step. rewrite nth_error_map. destruct (nth_error rq i) as [r|]; [|exact Hs].
+  cbn [option_map fst snd]. unfold handle_pre. apply hbody_inv. apply prov_spec_inv. exact Hs.
+Qed.
+
+Theorem unchanged_gate_without_predefined cfg u pol (rq : list request) s0 sch c' rs :
+  let reqs := map (fun r => (Some u, pol, r)) rq in
+  store_inv s0 -> may_create pol u = true ->
+  (forall r, In r rq -> spares_home u r) ->
+  exec sch (init s0 (map (breq_prog false [] cfg) reqs)) = Some c' -> finished c' rs ->
+  exists order,
+    Permutation order (seq 0 (length rq)) /\
+    subseq order sch /\
+    (forall a b, In a order -> In b order -> a <> b -> precedes sch a b -> before a b order) /\
+    fst (serial_handle [] cfg reqs order s0) = fst c' /\
+    map fst (snd (serial_handle [] cfg reqs order s0)) = order /\
+    (forall i r, In (i, r) (snd (serial_handle [] cfg reqs order s0)) -> nth_error rs i = Some r).
+Proof.
+  intros reqs Hs0 Hm Hsp He Hfin.
+  set (qs := map (unfixed_greq cfg u pol) rq).
+  assert (Hq : forall q, In q qs -> exists r, In r rq /\ q = unfixed_greq cfg u pol r).
+  { intros q Hq. apply in_map_iff in Hq. destruct Hq as [r [<- Hr]]. eauto. }
+  assert (Hprogs : map (breq_prog false [] cfg) reqs = map (fun r => req_prog false [] cfg (Some u) pol r) rq).
+  { unfold reqs. rewrite map_map. reflexivity. }
+  rewrite Hprogs in He.
+  assert (HP : forall s, store_inv s -> provision_unchecked [] s u = prov_spec [] pol (Some u) s)
+    by (intros; apply create_plain_is_provision; auto).
+  destruct (gate_serializable store response store oid qs
+              (map (fun r => req_prog false [] cfg (Some u) pol r) rq) s0 store_inv) with (sch := sch) (c' := c') (rs := rs)
+    as [order H]; auto.
+  - unfold qs. apply Forall2_map_same. intros r _. left. reflexivity.
+  - intros q Hi. destruct (Hq q Hi) as [r [_ ->]]. apply hsec_wf.
+  - intros q Hi. destruct (Hq q Hi) as [r [_ ->]]. apply hsec_one.
+  - unfold oid. intros q s s' _ ->. reflexivity.
+  - unfold oid. intros q s s' _ ->. reflexivity.
+  - unfold oid. intros q s Hi. destruct (Hq q Hi) as [r [_ ->]]. reflexivity.
+  - unfold oid. intros s s' ->. auto.
+  - intros q s Hi Hs. destruct (Hq q Hi) as [r [_ ->]]. cbn [unfixed_greq g_P]. rewrite HP by auto. apply prov_spec_inv. auto.
+  - intros q s Hi Hs. destruct (Hq q Hi) as [r [_ ->]]. cbn [unfixed_greq g_H]. rewrite run_prog_hsec. apply hbody_inv. auto.
+  - intros q q' s Hi Hi' _. destruct (Hq q Hi) as [r [_ ->]]. destruct (Hq q' Hi') as [r' [_ ->]]. reflexivity.
+  - intros q q' s Hi Hi' _ _. destruct (Hq q Hi) as [r [_ ->]]. destruct (Hq q' Hi') as [r' [_ ->]]. reflexivity.
+  - intros q s Hi Hs Hab. destruct (Hq q Hi) as [r [_ ->]]. unfold oid. cbn [unfixed_greq g_P g_absent] in *.
+    rewrite HP by auto. apply prov_spec_noop. auto.
+  - intros q s Hi Hs. destruct (Hq q Hi) as [r [_ ->]]. cbn [unfixed_greq g_P g_absent]. rewrite HP by auto.
+    apply prov_spec_present. auto.
+  - intros q q' s Hi Hi' Hs Hab. destruct (Hq q Hi) as [r [_ ->]]. destruct (Hq q' Hi') as [r' [Hr' ->]].
+    cbn [unfixed_greq g_H g_absent] in *. rewrite run_prog_hsec. apply gate_absent_stable; auto.
+  - rewrite map_length in H. unfold spec_serial in H.
+    destruct (unfixed_spec_serial cfg u pol rq Hm order (s0, []) Hs0) as [E _]. fold qs in E. rewrite E in H.
+    unfold oid in H. exists order. exact H.
+Qed.
